@@ -24,7 +24,7 @@ ALLK = {"ReadTimeout", "WriteTimeout", "Unavailable", "OverloadedErrorMessage", 
 D4 = {"RETRY", "NEXT", "RETHROW", "IGNORE"}
 BASE = dict(NHosts=3, PoolConds=set(), MaxBad=0, SpecChoices={0, 1, 2}, IdemChoices={True}, TargetChoices={0},
             OkKinds={"rows"}, ErrKinds={"Unavailable"}, FatalKinds=set(), Decisions=D4, CLs={99}, MaxRetries=1,
-            MaxEpoch=1, Timeouts=True, Late=True, IdChoices={"default"}, TimeChoices={0})
+            MaxEpoch=1, Timeouts=True, Late=True, IdChoices={"default"}, TimeChoices={0}, PrepChoices={"none"})
 
 
 def _c(**kw):
@@ -36,15 +36,22 @@ def _c(**kw):
 # quick: graphs whose every edge is replayed.  thorough: the same + a large exhaustive model + simulated behaviours.
 GRAPHS = {
     "C14": [("0-2 speculative x 1 retry x answers in any order x timeout x late answers",
-             _c(ErrKinds={"Unavailable"}, Decisions=D4))],
+             _c(ErrKinds={"Unavailable"}, Decisions=D4)),
+            ("schema-changing statement: the outcome is published by the refresh task, which may raise",
+             _c(SpecChoices={0, 1}, OkKinds={"rows", "schema"}, Decisions={"RETRY", "RETHROW"}))],
     "C15": [("silent / late nodes, first page and next page, missing or busy pools",
              _c(OkKinds={"rows", "more"}, Decisions={"RETRY", "NEXT"}, MaxEpoch=2, Late=False,
                 PoolConds={"missing", "busy"}, MaxBad=1, IdChoices={"one"})),
             ("speculative delays that do / do not fit into what remains of the timeout (timeout, delay) = (5,2) (4,2) (1,2)",
              _c(SpecChoices={1, 3}, OkKinds={"rows", "more"}, Decisions={"RETRY"}, MaxEpoch=2, Late=False,
-                TimeChoices={502, 402, 102}))],
+                TimeChoices={502, 402, 102})),
+            ("a saturated first host: the 2 s borrow outlasts the 1 s timeout before any connection is held (3 re-checks)",
+             _c(SpecChoices={0}, Decisions={"RETRY"}, Late=False, PoolConds={"busy"}, MaxBad=3, TimeChoices={100}))],
     "C16": [("every retryable error x every decision x consistency x idempotence",
-             _c(SpecChoices={0, 1}, IdemChoices={True, False}, ErrKinds=ALLK, CLs={99, 0, 4}, Late=False, Timeouts=False))],
+             _c(SpecChoices={0, 1}, IdemChoices={True, False}, ErrKinds=ALLK, CLs={99, 0, 4}, Late=False, Timeouts=False)),
+            ("bound statements: own is_idempotent flag x the PreparedStatement's flag",
+             _c(SpecChoices={1, 2}, IdemChoices={True, False}, PrepChoices={"yes", "no"}, Decisions={"RETRY", "RETHROW"},
+                Late=False, Timeouts=False))],
     "C17": [("all 5^3 pool vectors, explicit target host or none",
              _c(SpecChoices={0, 1}, TargetChoices={0, 2}, PoolConds={"missing", "shutdown", "busy", "failing"}, MaxBad=3,
                 ErrKinds={"Unavailable", "ConnectionShutdown"}, Decisions={"RETRY", "NEXT", "RETHROW"}, Late=False,
@@ -81,16 +88,16 @@ LIVENESS = _c(NHosts=2, OkKinds={"rows", "more"}, Decisions={"RETRY", "NEXT", "R
               PoolConds={"missing"}, MaxBad=1, TimeChoices={0, 302})
 TRACE_CONSTS = dict(NHosts=3, PoolConds={"missing", "shutdown", "busy", "failing", "unwritable", "noconn"}, MaxBad=3,
                     SpecChoices={0, 1, 2, 3}, IdemChoices={True, False}, TargetChoices={0, 1, 2, 3},
-                    OkKinds={"rows", "more", "void"}, ErrKinds=ALLK, FatalKinds={"SyntaxException", "InvalidRequest"},
+                    OkKinds={"rows", "more", "void", "schema"}, ErrKinds=ALLK, FatalKinds={"SyntaxException", "InvalidRequest"},
                     Decisions=D4, CLs={99, 0, 1, 4}, MaxRetries=3, MaxEpoch=2, Timeouts=True, Late=True,
-                    IdChoices={"default", "zero", "one"}, TimeChoices={0, 502, 402, 102})
+                    IdChoices={"default", "zero", "one"}, TimeChoices={0, 502, 402, 102}, PrepChoices={"none", "yes", "no"})
 
 ACTIONS = ["Start", "AnsOk", "AnsErr", "StoreErr", "SpecFire", "TimeoutFire", "RetryTask"]
 # Witness_* predicates of Request.tla (negated reachability) that TLC itself must violate on the first graph configuration
 TLA_WITNESSES = {
-    "C14": ["Witness_LateAnswer", "Witness_TwoInFlight", "Witness_TimeoutKeepsAtt", "Witness_RetryAfterTimeout"],
-    "C15": ["Witness_Page2Unset", "Witness_Page2Timeout", "Witness_Unfit"],
-    "C16": ["Witness_SameHostTwice", "Witness_RetryCL", "Witness_RetryAtANY"],
+    "C14": ["Witness_LateAnswer", "Witness_TwoInFlight", "Witness_TimeoutKeepsAtt", "Witness_RetryAfterTimeout", "Witness_RefreshRaises"],
+    "C15": ["Witness_Page2Unset", "Witness_Page2Timeout", "Witness_Unfit", "Witness_Recheck3"],
+    "C16": ["Witness_SameHostTwice", "Witness_RetryCL", "Witness_RetryAtANY", "Witness_BoundNotIdem"],
     "C17": ["Witness_NoHost", "Witness_NoHostAfterSend", "Witness_SkipAll", "Witness_TaskBeforeStore"],
 }
 
@@ -106,7 +113,9 @@ WITNESS = {
         "two attempts in flight": lambda s: len(s["att"]) >= 2,
         "timed out with an attempt still registered": lambda s: s["final"] == "OperationTimedOut" and len(s["att"]) > 0,
         "retry task runs after the timeout": lambda s: s["act"]["name"] == "RetryTask" and s["final"] == "OperationTimedOut",
-        "answer after completion": lambda s: s["act"]["name"] in ("AnsOk", "AnsErr", "AnsFatal") and s["final"] != "unset"
+        "schema refresh raised and the request still got its outcome": lambda s: s["act"]["name"] == "RefreshTask"
+        and s["act"]["k"] == "raises" and s["final"] == "empty" and sum(_tup(s["cb"])) == 1,
+                "answer after completion": lambda s: s["act"]["name"] in ("AnsOk", "AnsErr", "AnsFatal") and s["final"] != "unset"
         and sum(_tup(s["cb"])) + sum(_tup(s["eb"])) >= 1 and len(s["sentLog"]) >= 2,
     },
     "C15": {
@@ -114,6 +123,8 @@ WITNESS = {
         "second page timed out": lambda s: s["epoch"] == 2 and s["final"] == "OperationTimedOut",
         "speculative timer re-armed": lambda s: s["act"]["name"] == "SpecFire" and s["timer"] == "spec",
         "speculative execution offered but its delay does not fit into the remaining timeout": lambda s: bool(s["unfit"]) and s["tm"][0] > 0,
+        "timed out after 3 re-checks without ever holding a connection": lambda s: s["act"]["name"] == "RecheckFire"
+        and s["final"] == "OperationTimedOut" and s["lastConn"] == 0,
         "timeout timer after speculative executions": lambda s: s["act"]["name"] == "SpecFire" and s["timer"] == "timeout",
     },
     "C16": {
@@ -121,6 +132,7 @@ WITNESS = {
         "policy changed the consistency": lambda s: s["cl"] != 10 and len(s["sentLog"]) >= 2 and s["sentLog"][-1]["cl"] != 10,
         "retry sent at consistency ANY (numeric 0)": lambda s: s["cl"] == 0 and len(s["sentLog"]) >= 2 and s["sentLog"][-1]["cl"] == 0,
         "second consultation with retry_num 1": lambda s: any(e["rn"] == 1 for e in s["policyLog"]),
+        "non-idempotent BoundStatement of an idempotent PreparedStatement": lambda s: s["started"] and not s["idem"] and str(s["prep"]) == "yes",
         "non-idempotent statement": lambda s: s["started"] and not s["idem"],
         "ignored": lambda s: s["final"] == "empty" and any(e["dec"] == "IGNORE" for e in s["policyLog"]),
     },
@@ -254,7 +266,7 @@ def check_spec(ctx, pid, label, consts, graph):
                                   "trace": [dict(s.get("act", {})) for _, s in res.trace()]},
                           signature="spec:%s" % res.invariant)
         else:
-            ctx.note("spec_invariant_of_other_property_violated", res.invariant)
+            raise tlc.MachineryError("invariant %s (of %s) violated on Request.tla itself (%s)" % (res.invariant, own, label))
         return None, None, None, None
     return res, nodes, edges, init
 
@@ -493,7 +505,7 @@ def replay(ctx, pid, obj):
     if "actions" in obj:
         cfg = obj["config"]
         h = rq.ReqHarness(obj["nhosts"], cfg["pool"], cfg["idem"], cfg["spec"], cfg["target"], max_epoch=obj.get("max_epoch", 2),
-                          ids=cfg.get("ids", "default"), tm=tuple(cfg.get("tm", (0, 0))))
+                          ids=cfg.get("ids", "default"), tm=tuple(cfg.get("tm", (0, 0))), prep=cfg.get("prep", "none"))
         print("config", cfg)
         acts = list(obj["actions"])
         dv = obj.get("divergence") or {}
